@@ -587,7 +587,9 @@ def _judge_node(ev, b, spec, schema, r, pidx, xsd) -> list[Disc]:
     if named:
         tests.append((named[0], True, tagged(named[0], 'nearest-named')))
         if len(named) > 1:
-            t = named[1 + hsel % (len(named) - 1)]
+            tests.append((named[1], True, tagged(named[1], 'base')))
+        if len(named) > 2:
+            t = named[2 + hsel % (len(named) - 2)]
             tests.append((t, True, tagged(t, 'base')))
     if res['variety'] != 'eo':
         if hsel % 4 == 0:
@@ -659,15 +661,16 @@ def _judge_node(ev, b, spec, schema, r, pidx, xsd) -> list[Disc]:
                 if fam == 'string' or bi in G.STRING_FAMILY + G.NAME_FAMILY + ('language', 'NMTOKEN'):
                     exprs.append((f'string-length({x}) = {len(cv)}', True, 'string-length'))
         if exprs:
-            k = exp[0][2] + ':' + G.builtin_primitive(exp[0][0])
-            _run_boolean_batch(ev, b, exprs, pidx, discs, 'arith', union_slot(sres, exp), k, where)
+            k = exp[0][2] + '/' + G.builtin_primitive(exp[0][0])
+            _run_boolean_batch(ev, b, exprs, pidx, discs, 'arith', union_slot(sres, exp), k, where, class_first=True)
     return discs
 
 
-def _run_boolean_batch(ev, b, exprs, pidx, discs, check, container, tc, where):
+def _run_boolean_batch(ev, b, exprs, pidx, discs, check, container, tc, where, class_first=False):
     """evaluate `(e1, e2, ...)` in one go; on an exception evaluate one by one to attribute it.
 
-    bucket = C20/<check>/<container or root-cause class>/<failure kind>/<item type class>/<test tag>"""
+    bucket = C20/<check>/<container or root-cause class>/<failure kind>/<item type class>/<test tag>
+    (class_first: C20/<check>/<container>/<item type class>/<primitive>/<failure kind>/<test tag>)"""
     batch = '(' + ', '.join(f'({e})' for e, _, _ in exprs) + ')'
     try:
         got = ev.results(b.tree, batch, pidx, True)
@@ -690,10 +693,13 @@ def _run_boolean_batch(ev, b, exprs, pidx, discs, check, container, tc, where):
             cls, sep, tail = rest.partition('/')
             slot, tag = cls, head + sep + tail
         if isinstance(g, BaseException):
-            discs.append(Disc(esc_bucket(f'{check}/{slot}', g) + f'/{tc}/{tag}', want, repr(g), f'{e} :: {where}'))
+            bucket = esc_bucket(f'{check}/{slot}/{tc}' if class_first else f'{check}/{slot}', g) + \
+                (f'/{tag}' if class_first else f'/{tc}/{tag}')
+            discs.append(Disc(bucket, want, repr(g), f'{e} :: {where}'))
         elif g is not want:
-            discs.append(Disc(f'C20/{check}/{slot}/expected-{str(want).lower()}/{tc}/{tag}', want, repr(g),
-                              f'{e} :: {where}'))
+            kind = f'expected-{str(want).lower()}'
+            bucket = f'C20/{check}/{slot}/{tc}/{kind}/{tag}' if class_first else f'C20/{check}/{slot}/{kind}/{tc}/{tag}'
+            discs.append(Disc(bucket, want, repr(g), f'{e} :: {where}'))
 
 
 def schema_classes(spec) -> list[str]:
@@ -772,7 +778,8 @@ def judge_select(case, rec: Recorder | None = None) -> list[Disc]:
                 rb = [_address(B, n) for n in ev.nodes(B.tree, path, pidx, False)]
             except Exception as e:
                 eb = e
-            vp = 'value-pred' if 'value-pred' in feats else 'no-value-pred'
+            vp = 'no-value-pred' if 'value-pred' not in feats else \
+                'value-pred-boolean' if 'true()' in path or 'false()' in path else 'value-pred'
             # class of the known defect "a leading wildcard step skips the root element of a document-less tree"
             ctx = 'elem-root-leading-wildcard' if not case['tree'].endswith('-doc') and \
                 path.startswith(('//*', '/*')) else 'general'
